@@ -47,15 +47,22 @@ class Run:
 
 
 def _unraisable_hook(args):
+    if not REC.active:
+        return      # late garbage of an earlier run: not part of any history
     REC.unraisable.append(
         '%s:%s' % (getattr(args.exc_type, '__name__', '?'), args.exc_value))
 
 
-def begin_run(t0=0.0, seed=0):
+def begin_run(t0=0.0, seed=0, simmp_seed=None):
     # F8: the global generators used by the random dividers are owned by the
     # simulation; laws are checked for whichever outcome is drawn
     import random
     import numpy as np
+    if simmp_seed is not None:
+        # flush garbage of earlier runs now (their ParallelProcess.__del__ must
+        # not fire inside this run's history)
+        REC.active = False
+        gc.collect()
     random.seed(seed & 0xFFFFFFFF)
     np.random.seed(seed & 0xFFFFFFFF)
     install_registries()
@@ -66,12 +73,26 @@ def begin_run(t0=0.0, seed=0):
     REC.active = True
     gc.disable()
     sys.unraisablehook = _unraisable_hook
+    if simmp_seed is not None:
+        from dst import simmp
+        simmp.begin(simmp_seed)
 
 
 def end_run():
+    from dst import simmp
+    if simmp.SIM.active:
+        REC.extra['mp'] = {
+            'procs': [{'name': p.name, 'started': p.started, 'finished': p.task.finished,
+                       'joined': p.joined, 'closed': p.closed, 'exc': repr(p.exc) if p.exc else None}
+                      for p in simmp.SIM.procs],
+            'sync_points': simmp.SIM.sync_points, 'switches': simmp.SIM.switches,
+            'worker_exc': list(simmp.SIM.worker_exc)}
+        try:
+            REC.extra['mp']['leftover'] = simmp.end()
+        except Exception as e:
+            REC.extra['mp']['leftover'] = ['TEARDOWN-FAILED %r' % (e,)]
     REC.active = False
     REC.budget = None
-    sys.unraisablehook = sys.__unraisablehook__
     gc.enable()
 
 
@@ -134,6 +155,9 @@ def drive(run, eng, ops, unit, budget_fn, prec=None, first_index=0):
                 eng.end()
             elif name == 'gc':
                 gc.collect()
+            elif name == 'drop':
+                # the caller lets go of the engine (see drop_engine)
+                run.extra['drop'] = True
             else:
                 raise ValueError(name)
         except BaseException as e:  # noqa
@@ -148,6 +172,25 @@ def drive(run, eng, ops, unit, budget_fn, prec=None, first_index=0):
     return True
 
 
+def drop_engine(run):
+    """F7: the engine is discarded without end(); garbage collection is
+    the only thing left to stop the workers (ParallelProcess.__del__)."""
+    run.engine = None
+    run.emitter = None
+    REC.engine = None
+    REC.extra.pop('emitter', None)
+    REC.extra.pop('loc_cache', None)
+    REC._keep = []
+    REC.ev('OPSTART', name='gc-after-drop')
+    set_budget(5000000)
+    try:
+        gc.collect()
+        gc.collect()
+    except BaseException as e:  # noqa
+        run.exc = (REC.op, norm_exc(e), traceback.format_exc(limit=12))
+    REC.ev('OPEND', name='gc-after-drop', exc=run.exc[1] if run.exc else None)
+
+
 def _safe_time(eng):
     return eng.__dict__.get('global_time', REC.t0)
 
@@ -157,5 +200,6 @@ def finish(run):
     run.budget_hit = REC.budget_hit
     run.deadlock_hit = REC.deadlock_hit
     run.unraisable = list(REC.unraisable)
+    run.extra['mp'] = REC.extra.get('mp')
     run.digest = REC.digest()
     return run
